@@ -69,6 +69,7 @@ var opaqueModels = map[string]bool{
 	"(github.com/go-faster/jx.Num).IsInt":                              true,
 	"(github.com/go-faster/jx.Num).Int64":                              true,
 	"(github.com/go-faster/jx.Num).Float64":                            true,
+	"(github.com/go-faster/jx.Num).String":                             true,
 	"github.com/go-logfmt/logfmt.NewDecoder":                           true,
 	"(*github.com/go-logfmt/logfmt.Decoder).ScanRecord":                true,
 	"(*github.com/go-logfmt/logfmt.Decoder).ScanKeyval":                true,
@@ -318,6 +319,9 @@ func init() {
 	reg("(time.Time).UnixNano", "identity on integer nanoseconds", func(ex *Exec, a []Val, st *State, _ *types.Signature) []Val { return []Val{tm(a[0])} })
 	reg("(time.Time).Unix", "floor(t / 1e9)", func(ex *Exec, a []Val, st *State, _ *types.Signature) []Val {
 		return []Val{P.mk("div", "", SInt, []*Term{tm(a[0]), IntT(1000000000)}, nil)}
+	})
+	reg("(time.Time).Nanosecond", "t mod 1e9 (the nanosecond offset within the second)", func(ex *Exec, a []Val, st *State, _ *types.Signature) []Val {
+		return []Val{P.mk("mod", "", SInt, []*Term{tm(a[0]), IntT(1000000000)}, nil)}
 	})
 	reg("(time.Time).UnixMilli", "floor(t / 1e6)", func(ex *Exec, a []Val, st *State, _ *types.Signature) []Val {
 		return []Val{P.mk("div", "", SInt, []*Term{tm(a[0]), IntT(1000000)}, nil)}
